@@ -481,7 +481,7 @@ fn curve_names(ctx: &Ctx, stats: &Stats) -> Vec<Failure> {
 // Generated part: random mixes, surrounding program shape, random spelling
 // ---------------------------------------------------------------------------
 
-fn random_case(ctx: &Ctx, tape: &[u8], rec: &Rec) -> Verdict {
+fn random_parts(tape: &[u8], rec: &Rec) -> Result<(String, Vec<Line>, &'static str, &'static str, String), Bad> {
     let mut t = Tape::new(tape);
     let curve = CURVES[t.below(3)];
     let arg = spelling(&mut t, curve);
@@ -541,7 +541,25 @@ fn random_case(ctx: &Ctx, tape: &[u8], rec: &Rec) -> Verdict {
         (false, true) => "}\ncomponent main = Top(3);\n",
     };
     rec.sample(|| json!({"curve": curve, "curve_argument": arg, "lines": lines.iter().map(|l| l.text.clone()).collect::<Vec<_>>()}));
+    Ok((header, lines, footer, curve, arg))
+}
+
+fn random_case(ctx: &Ctx, tape: &[u8], rec: &Rec) -> Verdict {
+    let (header, lines, footer, curve, arg) = random_parts(tape, rec)?;
     run_lines(ctx, &header, &lines, footer, curve, &arg, "c11r")
+}
+
+/// The program of a random case as text (main file, included stub file, curve argument): C17 runs it
+/// repeatedly (range checks, comparisons and marked templates fill the hash maps of the curve-dependent passes).
+pub fn random_source(tape: &[u8], rec: &Rec) -> Result<(String, String, String), Bad> {
+    let (header, lines, footer, _, arg) = random_parts(tape, rec)?;
+    let mut src = header;
+    for l in &lines {
+        src.push_str(&l.text);
+        src.push('\n');
+    }
+    src.push_str(footer);
+    Ok((src, stubs(), arg))
 }
 
 pub fn replay(ctx: &Ctx, check: &str, tape: &[u8]) -> Verdict {
